@@ -19,7 +19,8 @@ Node kinds
   {"k":"dimap","g":node,"m":nparams,"pre":[expr..],"post":expr}   (g takes len(pre) float scalars)
   {"k":"map","g":node,"post":expr} / {"k":"contramap","g":node,"m":nparams,"pre":[expr..]}
 
-Signature kinds of arguments: 'f' float scalar, 'v' float vector, 'i' int index, 'b' bool flag,
+Signature kinds of arguments: 'f' float scalar, 'v' float vector, 'i' int index, 'b' bool flag, 'bi' bool flag that
+selects a branch (or_else), 'vb' bool vector,
 'lg' logits vector, ['args', sig] tuple of arguments for a branch.
 
 Expressions over an environment of float scalars (params, then one summary per statement):
@@ -160,12 +161,16 @@ def sig(node):
         return ["v" if ax == 0 else "f" for ax in node["axes"]]
     if k == "repeat":
         return sig(node["g"])
-    if k == "scan":
+    if k in ("scan", "accumulate", "reduce"):
         return ["f", "v"]
+    if k in ("iterate", "iterate_final"):
+        return ["f"]
+    if k in ("masked_iterate", "masked_iterate_final"):
+        return ["f", "vb"]
     if k == "switch":
         return ["i"] + [["args", sig(b)] for b in node["bs"]]
     if k == "or_else":
-        return ["b", ["args", sig(node["a"])], ["args", sig(node["b"])]]
+        return ["bi", ["args", sig(node["a"])], ["args", sig(node["b"])]]
     if k == "mix":
         return ["lg"] + [["args", sig(b)] for b in node["bs"]]
     if k == "mask":
@@ -201,6 +206,10 @@ def rtype(node):
         return ["vec", t]
     if k == "scan":
         return ["pair", "f", ["vec", "f"]]
+    if k in ("accumulate", "iterate", "masked_iterate"):
+        return ["vec", "f"]
+    if k in ("reduce", "iterate_final", "masked_iterate_final"):
+        return "f"
     if k in ("switch", "mix"):
         return _promote([rtype(b) for b in node["bs"]])
     if k == "or_else":
@@ -274,7 +283,12 @@ def _compile(node):
         rts = [rtype(s["callee"]) for s in stmts]
         ret = node["ret"]
 
-        def body(*params):
+        kwnames = node.get("kwnames", [])
+        kwdefaults = node.get("kwdefaults", [])
+
+        def body(*params, **kws):
+            # the trailing parameters named in "kwnames" are keyword parameters with defaults (C32)
+            params = list(params) + [kws.get(nm, df) for nm, df in zip(kwnames, kwdefaults)][len(params) - (node["n"] - len(kwnames)) :]
             env = [jnp.asarray(p, dtype=jnp.float32) for p in params]
             raws = []
             for s, cal, rt in zip(stmts, callees, rts):
@@ -298,6 +312,18 @@ def _compile(node):
         return compile_node(node["g"]).repeat(n=node["n"])
     if k == "scan":
         return compile_node(node["g"]).scan(n=node["n"])
+    if k == "accumulate":
+        return compile_node(node["g"]).accumulate()
+    if k == "reduce":
+        return compile_node(node["g"]).reduce()
+    if k == "iterate":
+        return compile_node(node["g"]).iterate(n=node["n"])
+    if k == "iterate_final":
+        return compile_node(node["g"]).iterate_final(n=node["n"])
+    if k == "masked_iterate":
+        return compile_node(node["g"]).masked_iterate()
+    if k == "masked_iterate_final":
+        return compile_node(node["g"]).masked_iterate_final()
     if k == "switch":
         bs = [compile_node(b) for b in node["bs"]]
         return genjax.switch(*bs)
@@ -348,9 +374,11 @@ def to_jax_args(sg, args, flag_repr="arr", idx_repr="arr"):
             out.append(jnp.asarray(a, dtype=jnp.float32))
         elif kind in ("v", "lg"):
             out.append(jnp.asarray(a, dtype=jnp.float32).reshape((len(a),)))
+        elif kind == "vb":
+            out.append(jnp.asarray(a, dtype=bool).reshape((len(a),)))
         elif kind == "i":
             out.append(int(a) if idx_repr == "py" else jnp.asarray(a, dtype=jnp.int32))
-        elif kind == "b":
+        elif kind in ("b", "bi"):
             out.append(bool(a) if flag_repr == "py" else jnp.asarray(bool(a)))
         elif kind[0] == "args":
             out.append(to_jax_args(kind[1], a, flag_repr, idx_repr))
@@ -366,9 +394,11 @@ def to_np_args(sg, args):
             out.append(np.float32(a))
         elif kind in ("v", "lg"):
             out.append(np.asarray(a, dtype=np.float32).reshape((len(a),)))
+        elif kind == "vb":
+            out.append(np.asarray(a, dtype=bool).reshape((len(a),)))
         elif kind == "i":
             out.append(int(a))
-        elif kind == "b":
+        elif kind in ("b", "bi"):
             out.append(bool(a))
         elif kind[0] == "args":
             out.append(to_np_args(kind[1], a))
@@ -395,6 +425,7 @@ class Run:
         self.branches = {}  # path -> executed branch index (switch / or_else / mix)
         self.masked_off = []  # (path, node) of mask nodes executed with flag False
         self.dist_info = {}  # path -> (dist name, params)
+        self.seen_inputs = None  # masked_iterate only: the returned list of seen values
         self.calls = {}  # call-site path -> (node, args, raw retval, first term idx, last term idx)
         self.retval = None
 
@@ -405,9 +436,10 @@ class Run:
         return {t[0]: t[1] for t in self.terms}
 
 
-def ref_run(node, args, lookup):
+def ref_run(node, args, lookup, seen_inputs=None):
     """args: numpy values matching sig(node); lookup(path, dist_name, params) -> value or raises Missing"""
     run = Run()
+    run.seen_inputs = seen_inputs
     run.retval = _ref(node, tuple(args), lookup, (), run)
     return run
 
@@ -469,6 +501,39 @@ def _ref(node, args, lookup, path, run):
             c, y = _ref(node["g"], (c, xs[i]), lookup, path + (i,), run)
             ys.append(y)
         return (c, ys)
+    if k in ("accumulate", "reduce"):
+        c, xs = args
+        seen = [c]
+        for i in range(node["n"]):  # documented reference loops of accumulate / reduce
+            c = _ref(node["g"], (c, xs[i]), lookup, path + (i,), run)
+            seen.append(c)
+        return seen if k == "accumulate" else c
+    if k in ("iterate", "iterate_final"):
+        x = args[0]
+        seen = [x]
+        for i in range(node["n"]):  # documented reference loops of iterate / iterate_final
+            x = _ref(node["g"], (x,), lookup, path + (i,), run)
+            seen.append(x)
+        return seen if k == "iterate" else x
+    if k == "masked_iterate_final":
+        x, ms = args
+        for i in range(node["n"]):  # "the result of the original operation if mask is True, and the original input if mask is False"
+            if bool(ms[i]):
+                x = _ref(node["g"], (x,), lookup, path + (i,), run)
+        return x
+    if k == "masked_iterate":
+        # The value that flows through a masked-off step is not specified; the inputs of the steps are
+        # therefore taken from the returned list of seen values (supplied by the caller through
+        # run.seen_inputs) and only the True steps are evaluated.
+        x, ms = args
+        seen = run.seen_inputs
+        outs = [seen[0]]
+        for i in range(node["n"]):
+            if bool(ms[i]):
+                outs.append(_ref(node["g"], (np.float32(seen[i]),), lookup, path + (i,), run))
+            else:
+                outs.append(None)
+        return outs
     if k == "switch":
         nb = len(node["bs"])
         idx = min(max(int(args[0]), 0), nb - 1)
@@ -524,7 +589,7 @@ def all_paths(node, path=()):
             a = s["addr"]
             out += all_paths(s["callee"], path + ((a,) if isinstance(a, str) else tuple(a)))
         return out
-    if k in ("vmap", "repeat", "scan"):
+    if k in ("vmap", "repeat", "scan", "accumulate", "reduce", "iterate", "iterate_final", "masked_iterate", "masked_iterate_final"):
         out = []
         for i in range(node["n"]):
             out += all_paths(node["g"], path + (i,))
@@ -556,9 +621,24 @@ def _dedupe(xs):
     return out
 
 
+def _kinds(node, acc):
+    acc.add(node["k"])
+    for key in ("g", "a", "b"):
+        if key in node and isinstance(node[key], dict):
+            _kinds(node[key], acc)
+    for b in node.get("bs", []):
+        _kinds(b, acc)
+    for s in node.get("stmts", []):
+        _kinds(s["callee"], acc)
+    return acc
+
+
 def has_empty_site(node, run):
-    """does the execution contain a call site (or the top level) under which no choice is active?"""
+    """does the program have code that this execution does not run (another switch branch, a masked-off
+    call, a zero-length map), i.e. addresses that are traceable but hold no choice in a complete sample?"""
     if len(run.terms) == 0:
+        return True
+    if _kinds(node, set()) & {"switch", "or_else", "mix"}:
         return True
     if run.masked_off:
         return True
@@ -658,15 +738,19 @@ def build_chm(asg, style="or"):
         rest = []
         for p, v in items:
             idxs = [i for i, c in enumerate(p) if isinstance(c, int)]
-            if len(idxs) == 1 and not isinstance(v, tuple):
+            ismask = isinstance(v, tuple) and len(v) == 3 and v[0] == "mask"
+            if len(idxs) == 1 and (not ismask or v[2]["repr"] != "py"):
                 i = idxs[0]
-                groups.setdefault((p[:i], p[i + 1 :]), []).append((p[i], v))
+                groups.setdefault((p[:i], p[i + 1 :], ismask), []).append((p[i], v))
             else:
                 rest.append((p, v))
-        for (pre, post), ivs in groups.items():
-            ivs.sort()
+        for (pre, post, ismask), ivs in groups.items():
+            ivs.sort(key=lambda t: t[0])
             ii = jnp.asarray([i for i, _ in ivs], dtype=jnp.int32)
-            vv = jnp.stack([jnp.asarray(v) for _, v in ivs])
+            if ismask:
+                vv = Mask(jnp.stack([jnp.asarray(v[1]) for _, v in ivs]), jnp.asarray([bool(v[2]["v"]) for _, v in ivs]))
+            else:
+                vv = jnp.stack([jnp.asarray(v) for _, v in ivs])
             chm = chm | C[(*pre, ii, *post)].set(vv)
         items = rest
     for p, v in items:
@@ -842,3 +926,67 @@ def check_trace_against_model(tr, node, nargs, asg, klass_prefix, case, Violatio
     if m:
         raise Violation(klass_prefix + "retval", f"trace retval differs from the reference execution: {m}", case)
     return run, fresh
+
+
+# ------------------------------------------------------------------------------------------------
+# exact enumeration of finite discrete programs (C04, C07)
+# ------------------------------------------------------------------------------------------------
+
+
+class _Need(Exception):
+    def __init__(self, path, support):
+        self.path = path
+        self.support = support
+
+
+def enumerate_program(node, nargs, fixed=None, limit=512):
+    """all complete assignments of a finite discrete program with their log-probabilities.
+    fixed: assignment (path -> value) of choices that are held (their density is still included).
+    Returns list of (assignment dict, logp, run) or None when more than `limit` outcomes."""
+    fixed = fixed or {}
+    results = []
+    stack = [dict()]
+    while stack:
+        dec = stack.pop()
+
+        def lookup(path, name, params, dec=dec):
+            if path in fixed:
+                return fixed[path]
+            if path in dec:
+                return dec[path]
+            if name not in DISCRETE_SUPPORT:
+                raise ValueError(f"continuous choice {name} at {path} cannot be enumerated")
+            raise _Need(path, DISCRETE_SUPPORT[name](params))
+
+        try:
+            run = ref_run(node, nargs, lookup)
+        except _Need as nd:
+            for v in nd.support:
+                d2 = dict(dec)
+                d2[nd.path] = v
+                stack.append(d2)
+            continue
+        results.append((run.assignment(), run.score(), run))
+        if len(results) > limit:
+            return None
+    return results
+
+
+def chm_get_traced(chm, path):
+    """(value, flag) at path with a possibly traced flag; absent -> (None, False). For use inside jit/vmap."""
+    import jax.numpy as jnp
+    from genjax import Mask
+    from genjax._src.core.generative.choice_map import ChoiceMapNoValueAtAddress
+
+    try:
+        if len(path) == 0:
+            v = chm.get_value()
+            if v is None:
+                return None, False
+        else:
+            v = chm[tuple(path)] if len(path) > 1 else chm[path[0]]
+    except ChoiceMapNoValueAtAddress:
+        return None, False
+    if isinstance(v, Mask):
+        return v.value, v.primal_flag()
+    return v, True
